@@ -127,8 +127,8 @@ def tame(rng, desc, p_diode=0.0, p_nonappl=0.0, p_iq=0.25, p_int=0.1):
     if br and any(c["name"] == br["child"] and len(c["parents"]) > 1 for c in desc["comps"]):
         # a bridged child with several parents gets ONE of its links re-created at the end, the others keep their place: the sibling
         # order of the document is then not the order of any component list (which is all the document model of C12 is given -
-        # edit histories are C16's subject), so the plan is dropped here rather than modelled wrongly
-        desc["_build"].pop("bridge")
+        # edit histories are C16's subject), so such a case is compared with ITSELF only (from_file(save(S)) vs S, mux input order included), not with the document model
+        desc["_no_layout_model"] = True
     for c in desc["comps"]:
         a = c["args"]
         if "limits" in a and not keep_nonappl:
@@ -336,6 +336,8 @@ def model_params_rows(nodes):
 
 def run_case(ctx, tmp, desc, tag, versions=False, dropkeys=False, model=True):
     case = desc
+    if desc.get("_no_layout_model"):
+        model = False
     ctx.stats["stream:" + tag] += 1
     s, e = sysdesc.quiet_call(sysdesc.build, desc)
     if e is not None:
